@@ -523,8 +523,10 @@ def run(chk, tier, seed):
         chk.case("e|ksa@T_el=13000|k=6", outcome=f"{flh[0] / flh[1]:.2f},{flh[1] / flh[2]:.2f}", sample={"part": "e", "engine": "ksa@T_el=13000", "fluct": flh})
         chk.traces += 1
         chk.extra.setdefault("e_measured", {})["e|ksa@hot|k=6"] = {"fluct": flh}
-        if not (2.8 <= flh[0] / flh[1] <= 5.6 and 2.8 <= flh[1] / flh[2] <= 5.6):
-            chk.violation({"part": "e", "engine": "ksa", "k": 6, "T_el": 13000}, f"e|ksa|k=6|T_el=13000: fluctuation of the published total (free) energy under dt halving has ratios {flh[0] / flh[1]:.2f}, {flh[1] / flh[2]:.2f}, not ~4 (fluct {flh})", replay={"part": "e", "item": ["ksa@hot", 6]})
+        # a 4.8 fs window holds few periods of the slow modes, so one halving is noisy (seed 1: 2.2 then 6.6); the two
+        # halvings together are robust: healthy 14.5-15.8, a dt-independent published energy gives ~1
+        if not (8.0 <= flh[0] / flh[2] <= 32.0):
+            chk.violation({"part": "e", "engine": "ksa", "k": 6, "T_el": 13000}, f"e|ksa|k=6|T_el=13000: fluctuation of the published total (free) energy under dt halving has ratios {flh[0] / flh[1]:.2f}, {flh[1] / flh[2]:.2f} (together {flh[0] / flh[2]:.1f}, expected ~16) (fluct {flh})", replay={"part": "e", "item": ["ksa@hot", 6]})
     except KeyError:
         pass
     for (engine, k) in sorted({(a, b) for a, b, _ in by if a != "bomd" and not a.endswith("@hot")}):
